@@ -483,8 +483,11 @@ def rule_kinds(chk, idx, scoped):
         cmps = k.run()
         par = parents_of(fn)
         if region is not None and not any(c[6] == region for c in cmps):
-            raise AnalysisError('%s.%s: no comparison found in the branch guarded by self.config.%s (weekday branch moved?)'
-                                % (cls.name, fn.name, region))
+            if weekday_branch(fn) is None:
+                raise AnalysisError('%s.%s: branch guarded by self.config.%s not found (weekday branch moved?)'
+                                    % (cls.name, fn.name, region))
+            chk.observe('%s.%s[%s]: no ordering comparison against the reference in this branch; it is decided by the '
+                        'tabulation rule C09.weekday alone' % (cls.name, fn.name, region))
         counts = {}
         for node, op, a, b, ka, kb, reg in cmps:
             if region is not None and reg != region:
@@ -533,6 +536,10 @@ def rule_polarity(chk, idx, scoped):
             ps = [p for p in ps if region_of_node(fn, p['node'], par) == region]
         if fn.name != 'parse_number_with_month' or cls.name == 'BaseDateParser':
             if not ps:
+                if region is not None and weekday_branch(fn) is not None:
+                    chk.observe('%s.%s[%s]: candidates are not moved under a comparison with the reference; polarity and wiring '
+                                'are decided by the tabulation rule C09.weekday' % (cls.name, fn.name, region))
+                    continue
                 raise AnalysisError('%s.%s: no candidate move under a comparison with the reference recognised' % (cls.name, fn.name))
         construct = '%s.%s' % (cls.name, fn.name)
         fwd, back = set(), set()
@@ -1251,6 +1258,154 @@ def rule_order(chk, idx):
                               '%s is filled from %s, expected value.%s_resolution' % (key, sorted(src) or 'an unknown source', want), n.lineno)
 
 
+# ---------------------------------------------------------------------------------------------------
+# C09.numeric-order: the first year-less numeric layout that can read a bare `a/b` follows the culture's declared order
+
+NUMERIC_PROBES = ('5/6', '5-6')
+OBSERVED_PROBES = ('5.6',)     # dotted layouts: the Specs fix some of them month-first (it: 'il 4.22' -> XXXX-04-22)
+
+
+def _bare_matchable(tree):
+    """False when the pattern starts with a positive look-behind (it needs text before the date)"""
+    n = tree
+    while n is not None and n.kind in ('seq', 'group') and (n.items or n.node is not None):
+        n = n.items[0] if n.items else n.node
+    return not (n is not None and n.kind == 'look' and n.dir == 'behind')
+
+
+def date_regex_layouts(idx, R, cls, ev):
+    """-> (declared order, [(branch label, active, [(display name, pattern)])]) or None when the class has no such list"""
+    init = cls.methods.get('__init__')
+    if init is None:
+        return None
+    lst = None
+    for n in ast.walk(init):
+        if isinstance(n, ast.Assign) and any(isinstance(t, ast.Attribute) and t.attr == '_date_regex_list' for t in n.targets) \
+                and isinstance(n.value, ast.List):
+            lst = n.value
+    if lst is None:
+        return None
+    elems = []
+    for e in lst.elts:
+        arg = e.args[0] if isinstance(e, ast.Call) and e.args else e
+        elems.append(arg)
+    local_names = {a.id for a in elems if isinstance(a, ast.Name)}
+    branches = [('', True, {})]
+    if local_names:
+        chooser = None
+        for st in init.body:
+            if isinstance(st, ast.If):
+                assigned = {t.id for n in ast.walk(st) if isinstance(n, ast.Assign) for t in n.targets if isinstance(t, ast.Name)}
+                if local_names <= assigned:
+                    chooser = st
+        if chooser is None:
+            raise AnalysisError('%s.__init__: the if/else that chooses the numeric date layouts was not found' % cls.name)
+        test = chooser.test
+        tv = ev(test)
+        if tv is NOVAL_ and isinstance(test, ast.Compare) and len(test.ops) == 1 and isinstance(test.ops[0], ast.Eq):
+            a, b = ev(test.left), ev(test.comparators[0])
+            if a is not NOVAL_ and b is not NOVAL_:
+                tv = a == b
+        if tv is NOVAL_ and isinstance(test, ast.Name):
+            params = init.args.args
+            defaults = init.args.defaults
+            for i, prm in enumerate(params):
+                if prm.arg == test.id:
+                    di = i - (len(params) - len(defaults))
+                    if di >= 0 and isinstance(defaults[di], ast.Constant):
+                        tv = bool(defaults[di].value)
+        if tv is NOVAL_:
+            raise AnalysisError('%s.__init__: cannot evaluate the layout-choosing condition `%s` under default configuration'
+                                % (cls.name, ast.unparse(test)))
+        branches = []
+        for label, body, active in (('if-branch', chooser.body, bool(tv)), ('else-branch', chooser.orelse, not tv)):
+            m = {}
+            for st in body:
+                if isinstance(st, ast.Assign) and len(st.targets) == 1 and isinstance(st.targets[0], ast.Name):
+                    m[st.targets[0].id] = st.value
+            branches.append((label, active, m))
+    out = []
+    declared = None
+    for label, active, m in branches:
+        pats = []
+        for a in elems:
+            src = m.get(a.id) if isinstance(a, ast.Name) else a
+            if not (isinstance(src, ast.Attribute) and isinstance(src.value, ast.Name)):
+                raise AnalysisError('%s.__init__: date_regex_list element %s is not <Resource>.<Name>' % (cls.name, ast.unparse(a)))
+            vals = R.by_name(cls.mod, src.value.id)
+            if vals is None or src.attr not in vals or not isinstance(vals[src.attr], str):
+                raise AnalysisError('%s.__init__: cannot evaluate %s' % (cls.name, ast.unparse(src)))
+            declared = vals.get('DefaultLanguageFallback', declared)
+            pats.append((src.attr, vals[src.attr]))
+        out.append((label, active, pats))
+    return declared, out
+
+
+NOVAL_ = None      # bound to c07.NOVAL on first use
+
+
+def first_layout(rx, pats, probe):
+    """(name, 'day-first'|'month-first') of the first pattern of the list that can read the bare probe"""
+    for name, pat in pats:
+        d, m = pat.find('(?<day>'), pat.find('(?<month>')
+        if d < 0 or m < 0:
+            continue
+        try:
+            tree = rx.parse(pat)
+        except rx.RxError:
+            continue
+        if not _bare_matchable(tree):
+            continue
+        if rx.matches(tree, probe):
+            return name, ('day-first' if d < m else 'month-first')
+    return None
+
+
+def rule_numeric_order(chk, idx):
+    global NOVAL_
+    from ..consteval import Resources
+    from .. import rx
+    from .c07 import NOVAL, make_evalc
+    NOVAL_ = NOVAL
+    rid = 'C09.numeric-order'
+    chk.rule(rid, 'under the default configuration the first numeric layout of date_regex_list that can read a bare `a/b` has '
+                  'the day/month order the culture declares (DefaultLanguageFallback)', floor=6)
+    R = Resources(idx)
+    base = idx.cls(PKG + '.base_date.DateExtractorConfiguration')
+    n = 0
+    for c in sorted(idx.subclasses(base), key=lambda k: k.qual):
+        res = date_regex_layouts(idx, R, c, make_evalc(idx, c.mod, c))
+        if res is None:
+            continue
+        declared, branches = res
+        if declared not in ('DMY', 'MDY'):
+            chk.observe('%s: declared order %r - numeric day/month layouts not compared' % (c.name, declared))
+            continue
+        want = 'day-first' if declared == 'DMY' else 'month-first'
+        chk.consulted(c.mod.path)
+        for label, active, pats in branches:
+            if not active:
+                continue
+            for probe in OBSERVED_PROBES:
+                hit = first_layout(rx, pats, probe)
+                if hit is not None and hit[1] != want:
+                    chk.observe('%s: a bare `%s` is first read by %s (%s) although the culture declares %s - dotted layouts are '
+                                'fixed by the Specs, not armed' % (c.name, probe, hit[0], hit[1], declared))
+            for probe in NUMERIC_PROBES:
+                hit = first_layout(rx, pats, probe)
+                if hit is None:
+                    continue
+                n += 1
+                sep = probe[1]
+                chk.judge(hit[1] == want, rid, c.mod.path, '%s.date_regex_list[a%sb]' % (c.name, sep),
+                          'declared %s; first layout reading a bare a%sb is %s' % (declared, sep, hit[1]),
+                          'the culture declares %s, but under the default configuration the first pattern of date_regex_list that '
+                          'can read a bare `a%sb` is %s, a %s layout: `%s` is read with day and month exchanged'
+                          % (declared, sep, hit[0], hit[1], probe), c.methods['__init__'].lineno)
+    if n < 6:
+        raise AnalysisError('only %d numeric layout probes could be decided' % n)
+
+
 def run(chk):
     chk.explanation = ('granularity kinds (DateOnly vs DateTime) inferred flow-sensitively inside the candidate-selection '
                        'functions; every ordering comparison between the two kinds is a violation; polarity and step of every '
@@ -1262,5 +1417,6 @@ def run(chk):
     rule_order(chk, idx)
     rule_eval_yearless(chk, idx)
     rule_eval_weekday(chk, idx)
+    rule_numeric_order(chk, idx)
     chk.assume('a parameter annotated `datetime` (the reference) may carry a time of day; DateUtils.safe_create_* with three '
                'date arguments and datetime(y, m, d) yield midnight; DateUtils.this/next/last add whole days')
